@@ -9,6 +9,7 @@ from pathlib import Path
 from typing import TYPE_CHECKING
 from typing import Iterable
 
+from liquid2.exceptions import LiquidValueError
 from liquid2.exceptions import TemplateNotFoundError
 from liquid2.loader import BaseLoader
 from liquid2.loader import TemplateSource
@@ -80,8 +81,15 @@ class PackageLoader(BaseLoader):
 
     def _read(self, source_path: Traversable) -> str:
         # Keep line endings as they are in the file, like `from_string` does.
-        with source_path.open(encoding=self.encoding, newline="") as fd:
-            return fd.read()
+        try:
+            with source_path.open(encoding=self.encoding, newline="") as fd:
+                return fd.read()
+        except OSError as err:
+            raise TemplateNotFoundError(str(source_path)) from err
+        except UnicodeDecodeError as err:
+            raise LiquidValueError(
+                f"template '{source_path}' is not {self.encoding} text", token=None
+            ) from err
 
     def get_source(
         self,
